@@ -95,6 +95,8 @@ def _descs(ctx, n):
 
 
 def correspond(ctx, corr, model_ok):
+    from harness import battery
+    battery.run(corr, ['rx-take'])
     n = ctx.scale(220, 2500)
     runs, crashed = E.run_all(_descs(ctx, n))
     corr.oracle_failures.extend(crashed)
@@ -141,6 +143,10 @@ def search(ctx, budget):
 
 
 def replay(obj):
+    from harness import battery as _bat
+    _r = _bat.replay(obj.get('case') if isinstance(obj.get('case'), dict) else obj)
+    if _r is not None:
+        return _r
     case = obj.get('case') or obj
     if 'routed_case' in case:
         return bool(routed_oracle())
